@@ -43,10 +43,12 @@ def leaf_vals_app(rng, abi, kinds, poison):
                 out.append(str(rng.choice([x for x in c if lo <= x <= hi])))
         elif k == "enum":
             out.append(str(rng.choice([0, 1, 70000, -5])))
-        elif k == "float":
-            out.append(str(rng.randint(-1000, 1000)))
-        elif k == "double":
-            out.append(str(rng.randint(-10 ** 9, 10 ** 9)))
+        elif k in ("float", "double"):
+            # mostly integral values; sometimes one of the special values (code 2^62+k: NaN, +-inf, -0.0, denormal, max, NaN payload)
+            if rng.random() < 0.25:
+                out.append(str((1 << 62) + rng.randint(1, 7)))
+            else:
+                out.append(str(rng.randint(-1000, 1000) if k == "float" else rng.randint(-10 ** 9, 10 ** 9)))
         elif k == "fn":
             out.append(str(rng.randint(0, 3)))
         else:
@@ -71,10 +73,12 @@ def leaf_vals_guest(rng, abi, kinds, poison):
                 out.append(str(rng.choice([x for x in c if lo <= x <= hi])))
         elif k == "enum":
             out.append(str(rng.choice([0, 1, 70000, -5])))
-        elif k == "float":
-            out.append(str(rng.randint(-1000, 1000)))
-        elif k == "double":
-            out.append(str(rng.randint(-10 ** 9, 10 ** 9)))
+        elif k in ("float", "double"):
+            # mostly integral values; sometimes one of the special values (code 2^62+k: NaN, +-inf, -0.0, denormal, max, NaN payload)
+            if rng.random() < 0.25:
+                out.append(str((1 << 62) + rng.randint(1, 7)))
+            else:
+                out.append(str(rng.randint(-1000, 1000) if k == "float" else rng.randint(-10 ** 9, 10 ** 9)))
         elif k == "fn":
             out.append(str(rng.randint(0, 3)))
         else:
@@ -175,7 +179,7 @@ def run(chk):
     chk.add_samples(samples)
     chk.cov["trusted_base"] += ["C08: gen/structs.py (generator of the struct families and of the independent fixed-width guest structs)",
                                 "C08: every op runs in a forked child; termination by SIGABRT (std::terminate from rlbox's noexcept members, or abort()) is read as the library's abort",
-                                "C08: arrays of structs and const-qualified fields do not compile with rlbox's struct support and are absent from the families; floating-point fields carry small integral values"]
+                                "C08: arrays of structs and const-qualified fields do not compile with rlbox's struct support and are absent from the families; floating-point fields carry small integral values and the special values (NaN with and without payload, +-inf, -0.0, smallest denormal, largest finite), compared bitwise"]
 
 
 def replay(chk, rp):
